@@ -305,11 +305,25 @@ mod real {
             let s2 = server.clone();
             let h = std::thread::spawn(move || {
                 let mut n = 0;
-                while let Ok(Some(rq)) = s2.recv_timeout(Duration::from_millis(700)) {
-                    n += 1;
-                    let _ = rq.respond(Response::from_string("x"));
+                let mut errs: Vec<String> = Vec::new();
+                let mut idle = 0;
+                while idle < 2 {
+                    match s2.recv_timeout(Duration::from_millis(700)) {
+                        Ok(Some(rq)) => {
+                            idle = 0;
+                            n += 1;
+                            let _ = rq.respond(Response::from_string("x"));
+                        }
+                        Ok(None) => idle += 1,
+                        Err(e) => {
+                            idle = 0;
+                            if errs.len() < 5 {
+                                errs.push(format!("{:?}: {}", e.kind(), e));
+                            }
+                        }
+                    }
                 }
-                n
+                (n, errs)
             });
             for _ in 0..200 {
                 if let Ok(mut s) = TcpStream::connect(addr) {
@@ -328,9 +342,10 @@ mod real {
                 let _ = s.read_to_end(&mut v);
                 ok = v.starts_with(b"HTTP/1.1 200");
             }
-            let delivered = h.join().unwrap_or(0);
+            let (delivered, errs) = h.join().unwrap_or((0, vec![]));
             out.insert("after_200_reset_clients_server_alive".into(), json!(ok));
             out.insert("reset_clients_requests_delivered".into(), json!(delivered));
+            out.insert("reset_clients_recv_errors".into(), json!(errs));
         }
         // C20: threads return to the baseline after a burst
         {
